@@ -963,7 +963,10 @@ def run_history(acc, layer, cfg, tree0, ops, cap_n):
         variants = win_variants(h, recursive, cfg.get("parent_mod_max_burst", 99))
     else:
         mn = mac_notifs(h)
-        variants = [(dict(place="last"), mn), (dict(place="first"), mn), (dict(place="last", sticky=True), mn)]
+        # a coalesced item is placed at its LAST change (FSEvents.h: the event id is that of the most recent event).
+        # The alternative reading (position of the first change) was enumerated at first; the only problem it added
+        # vanished under the documented placement and was judged an artefact of a too permissive simulator.
+        variants = [(dict(place="last"), mn), (dict(place="last", sticky=True), mn)]
     acc.histories += 1
     for variant, notifs in variants:
         first_place = variant.get("place") == "first"
